@@ -1201,3 +1201,64 @@ func (c *Ctx) sessionStoreLocking() {
 	c.R.Count("updates of the session store's map", n)
 	c.R.Floor("updates of the session store's map (Save, Del, Close)", n, 2)
 }
+
+// socketWrittenOnlyByHandshake: once a connection runs, everything it sends goes through the outgoing ring and is
+// written to the socket by the sender goroutine alone. The function that writes a packet straight to the socket
+// belongs to the handshake (CONNECT / CONNACK, before start): no method of the running connection calls it.
+func (c *Ctx) socketWrittenOnlyByHandshake() {
+	r := c.Roles()
+	if r.SockWrite == nil {
+		c.R.Unresolved("socket writer")
+		return
+	}
+	var bad []string
+	n := 0
+	for _, site := range c.P.Callers(r.SockWrite) {
+		host := site.Parent()
+		for host.Parent() != nil {
+			host = host.Parent()
+		}
+		n++
+		if recvNamed(host) == "service" {
+			bad = append(bad, fname(host)+" at "+c.P.InstrPos(site))
+		}
+	}
+	sort.Strings(bad)
+	c.R.Check(len(bad) == 0, ruleP9, "socket-writer:called-only-by-the-handshake", c.P.Pos(r.SockWrite.Pos()), fmt.Sprintf("%d call sites, none in a method of the running connection", n),
+		"a method of the running connection writes a packet straight to the socket ("+joinStr(bad, ", ")+"), past the write mutex and the outgoing ring: it lands between two chunks of a packet the sender goroutine is writing")
+	c.R.Count("call sites of the socket writer", n)
+	c.R.Floor("call sites of the socket writer (CONNECT, CONNACK)", n, 2)
+}
+
+// condLocksExclusive: the lock of a condition variable makes "test the predicate, then Wait" atomic against "change the
+// state, then Broadcast" only if it is exclusive. Every sync.NewCond in the library is handed a *sync.Mutex or a
+// *sync.RWMutex (whose Lock is exclusive) - not the shared side of an RWMutex (RLocker) or another Locker whose
+// exclusion the checker cannot see.
+func (c *Ctx) condLocksExclusive() {
+	n := 0
+	for _, fn := range c.P.Funcs {
+		if fn.Pkg == nil || !strings.HasPrefix(fn.Pkg.Pkg.Path(), core.ModPath) || fn.Blocks == nil {
+			continue
+		}
+		for _, call := range ir.Calls(fn) {
+			if !ir.IsFunc(call.Common(), "sync", "NewCond") || len(call.Common().Args) != 1 {
+				continue
+			}
+			n++
+			ok := false
+			what := "a Locker that is not a mutex"
+			if mi, isMI := call.Common().Args[0].(*ssa.MakeInterface); isMI {
+				if pt, isP := mi.X.Type().(*types.Pointer); isP && (ir.TypeIs(pt.Elem(), "sync", "Mutex") || ir.TypeIs(pt.Elem(), "sync", "RWMutex")) {
+					ok = true
+				}
+			}
+			if cv, isCall := call.Common().Args[0].(*ssa.Call); isCall && cv.Common().StaticCallee() != nil && cv.Common().StaticCallee().Name() == "RLocker" {
+				what = "the read side of an RWMutex (RLocker)"
+			}
+			c.R.Check(ok, ruleL2, fmt.Sprintf("%s:NewCond#%d:lock-is-exclusive", fname(fn), n), c.P.InstrPos(call), "the condition variable's lock is a *sync.Mutex / *sync.RWMutex",
+				"a condition variable is created over "+what+": waiter and signaller can hold it at the same time, so a Broadcast can fall between a waiter's test of the predicate and its Wait - the wake-up is lost and the waiter sleeps although the bytes (or the room) are there")
+		}
+	}
+	c.R.Count("condition variables created", n)
+	c.R.Floor("condition variables created (pcond, ccond)", n, 2)
+}
